@@ -54,10 +54,13 @@ def appliedIn (pr : PA) (i : Nat) (v : Vote) : Bool :=
   | some j => anc pr.nodes i j
   | none => false
 
+/-- sum of the balances of the validators `k, k+1, …` (votes `vs`) whose applied vote lies in the subtree of `i` -/
+def wsumFrom (pr : PA) (bals : List Nat) (i : Nat) : Nat → List Vote → Int
+  | _, [] => 0
+  | k, v :: vs => (if appliedIn pr i v then ((bals.getD k 0 : Nat) : Int) else 0) + wsumFrom pr bals i (k + 1) vs
+
 /-- sum of the balances of the validators whose applied vote lies in the subtree of `i` -/
-def wsum (pr : PA) (votes : List Vote) (bals : List Nat) (i : Nat) : Int :=
-  ((List.range votes.length).map (fun k =>
-    if appliedIn pr i (votes.getD k Vote.zero) then ((bals.getD k 0 : Nat) : Int) else 0)).sum
+def wsum (pr : PA) (votes : List Vote) (bals : List Nat) (i : Nat) : Int := wsumFrom pr bals i 0 votes
 
 /-- Weights invariant: the weight of every node is the sum of the balances of the validators whose applied
 vote lies in its subtree. -/
